@@ -714,6 +714,9 @@ func runC07(c *ev.ChildEnv, res *ev.Result) {
 		go func() {
 			defer wg.Done()
 			defer func() { <-sem }()
+			if res.HangCount() >= 4 {
+				return // every further hang costs a full hard bound
+			}
 			dir := fmt.Sprintf("%s/%s", c.Dir, j.tag)
 			mkdirAll(dir)
 			res.Eval()
